@@ -665,7 +665,15 @@ func (g *gen) sw(depth int) TNode {
 func (g *gen) ctxset() TNode {
 	n := CtxSet{Var: pick(g.r, []string{"x1", "x2", "si", "bv"}), KW: pick(g.r, []string{"ctx", "context"})}
 	if len(g.cvars) > 0 && !g.cfg.BuiltinOnly && g.r.Rng.Intn(6) == 0 {
-		n.Var = g.cvars[g.r.Rng.Intn(len(g.cvars))] // assignment to a counter-loop variable inside its body
+		// assignment to a counter-loop variable inside its body; literal sources only: the variable is used as
+		// an index ([i]) and the code-generated test inspector (a dependency) panics on a negative index
+		n.Var = g.cvars[g.r.Rng.Intn(len(g.cvars))]
+		if g.r.Rng.Intn(2) == 0 {
+			n.Src = strconv.Itoa(g.r.Rng.Intn(4))
+		} else {
+			n.Src = `"` + pick(g.r, []string{"x", "1", "zz"}) + `"`
+		}
+		return n
 	}
 	if g.cfg.BuiltinOnly {
 		// keep the declared kinds of si / bv: an ill-typed comparison makes strconv allocate its error
@@ -738,9 +746,15 @@ func (g *gen) include(depth int) TNode {
 		n.Names = append(n.Names, "missingTpl")
 	}
 	n.Names = append(n.Names, key)
-	if idx > 0 && g.r.Rng.Intn(3) == 0 {
+	var done []string // finished include targets (never an enclosing one: that would be a self-inclusion)
+	for k := 0; k < idx; k++ {
+		if g.incl[k].Src != "" || g.incl[k].Ast != nil {
+			done = append(done, g.incl[k].Key)
+		}
+	}
+	if len(done) > 0 && g.r.Rng.Intn(3) == 0 {
 		// a second REGISTERED name, before or after: the first registered name of the list wins
-		other := g.incl[g.r.Rng.Intn(idx)].Key
+		other := done[g.r.Rng.Intn(len(done))]
 		if g.r.Rng.Intn(2) == 0 {
 			n.Names = append(n.Names, other)
 		} else {
